@@ -66,6 +66,9 @@ MUTANTS = [
     ("C19-zip-list-is-archive-list", "C19", S, "                .is_zip_archive\n                .as_ref()\n                .unwrap_or(self.default_config.is_zip_archive.as_ref().unwrap()),", "                .is_archive\n                .as_ref()\n                .unwrap_or(self.default_config.is_archive.as_ref().unwrap()),"),
     ("C19-datetime-from-now", "C19", D, "    NaiveDate::from_ymd_opt(dt.year() as i32, dt.month() as u32, dt.day() as u32)\n        .and_then(|date| date.and_hms_opt(dt.hour() as u32, dt.minute() as u32, dt.second() as u32))\n        .unwrap_or_default()", "    use chrono::Datelike;\n    Local::now().naive_local().with_year(dt.year() as i32).unwrap().with_month(dt.month() as u32).unwrap().with_day(dt.day() as u32).unwrap().with_hour(dt.hour() as u32).unwrap().with_minute(dt.minute() as u32).unwrap().with_second(dt.second() as u32).unwrap()"),
     ("C19-member-size-compressed", "C19", "src/fileinfo.rs", "size: zipped_file.size(),", "size: zipped_file.compressed_size(),"),
+    ("C04-cap-wrong-bit", "C04", "src/util/capabilities.rs", "check_cap!(cap_net_raw, 13, permitted", "check_cap!(cap_net_raw, 14, permitted"),
+    ("C04-cap-high-word-swapped", "C04", "src/util/capabilities.rs", "        let permitted = u32::from_le_bytes(caps[12..16].try_into().unwrap());\n        let inherited = u32::from_le_bytes(caps[16..20].try_into().unwrap());", "        let inherited = u32::from_le_bytes(caps[12..16].try_into().unwrap());\n        let permitted = u32::from_le_bytes(caps[16..20].try_into().unwrap());"),
+    ("C04-has-xattrs-more-than-one", "C04", S, "let has_xattrs = xattrs.count() > 0;", "let has_xattrs = xattrs.count() > 1;"),
 ]
 
 
